@@ -439,7 +439,7 @@ func fileUnrenderable(rec *Recipe, i int) bool {
 			if has(op.Node) {
 				return true
 			}
-		case "addfrag":
+		case "addfrag", "addfrag_chain":
 			if len(rec.Frags) > 0 && has(rec.Frags[op.I%len(rec.Frags)]) {
 				return true
 			}
